@@ -237,6 +237,11 @@ func TestC06_Reuse(t *testing.T) {
 				ops[i] = c06Op{Op: "recompile", Doc: d}
 			case 2:
 				bad := gen.Pick(t, "mc", []string{"a.b", "a[", "abs()", "foo(a)", "`x`", "a | b", "", "[::0]", "sort_by(a, b)"})
+				if rapid.IntRange(0, 2).Draw(t, "mcmutated") > 0 {
+					// any text: the expression itself, damaged in one of the ways
+					// the grammar check (C04) uses
+					bad, _ = mutate(t, text)
+				}
 				ops[i] = c06Op{Op: "mustcompile", Expr: bad}
 			default:
 				ops[i] = c06Op{Op: "search", Doc: d}
